@@ -398,6 +398,16 @@ def gen_float(rng):
     return -x if rng.random() < 0.2 else x
 
 
+# integers that are exactly doubles but beyond 2^53 / at and beyond 10^21: the canonical text of such an int is the
+# ECMAScript text of the double (9223372036854776000, 1e+21), not its digits
+BIG_EXACT = [2 ** 53, 2 ** 53 + 2, 2 ** 63, 2 ** 64, 10 ** 21, 10 ** 22, 2 ** 70, 3 * 2 ** 60, 2 ** 62 + 2 ** 20, 123456789012345680000]
+
+
+def gen_big_int(rng, signed=False):
+    z = rng.choice(BIG_EXACT + [2 ** rng.randrange(53, 100)])
+    return -z if signed and rng.random() < 0.3 else z
+
+
 def gen_common_noncontrib(rng):
     out = []
     if maybe(rng, 0.3):
@@ -428,7 +438,7 @@ def gen_json_dict(rng, depth=2):
         elif r < 0.4:
             v = A([rng.choice([gen_text(rng), I(rng.randrange(-5, 1000)), maybe(rng)]) for _ in range(rng.choice([1, 2, 3]))])
         elif r < 0.55:
-            v = I(rng.randrange(-10 ** 6, 10 ** 6))
+            v = I(rng.choice([rng.randrange(-10 ** 6, 10 ** 6), rng.randrange(-10 ** 6, 10 ** 6), gen_big_int(rng, True)]))
         elif r < 0.7:
             v = F(gen_float(rng))
         elif r < 0.8:
@@ -517,8 +527,11 @@ def file_ext(rng):
         if maybe(rng):
             e.append(("machine_hex", hexs(rng, 4)))
         if maybe(rng):
-            e.append(("optional_header", O([("magic_hex", hexs(rng, 4)), ("size_of_code", I(rng.randrange(0, 10 ** 6))),
-                                            ("major_linker_version", I(rng.randrange(0, 20)))][:rng.choice([1, 2, 3])])))
+            oh = [("magic_hex", hexs(rng, 4)), ("size_of_code", I(rng.randrange(0, 10 ** 6))),
+                  ("major_linker_version", I(rng.randrange(0, 20))), ("image_base", I(rng.choice([4194304, 2 ** 32, gen_big_int(rng)]))),
+                  ("size_of_image", I(gen_big_int(rng)))]
+            rng.shuffle(oh)
+            e.append(("optional_header", O(oh[:rng.choice([1, 2, 3, 5])])))
         e.append(("sections", A(secs)))
         exts.append(("windows-pebinary-ext", O(e)))
     if maybe(rng, 0.2):
@@ -549,7 +562,7 @@ def nt_ext(rng):
         if maybe(rng):
             e.append(("is_listening", maybe(rng)))
         if maybe(rng):
-            e.append(("options", O([("SO_KEEPALIVE", I(1)), ("SO_RCVBUF", I(rng.randrange(0, 65536))),
+            e.append(("options", O([("SO_KEEPALIVE", I(1)), ("SO_RCVBUF", I(rng.choice([rng.randrange(0, 65536), gen_big_int(rng)]))),
                                     ("SO_LINGER", I(0))][:rng.choice([1, 2, 3])])))
         if maybe(rng):
             e.append(("socket_type", rng.choice(["SOCK_STREAM", "SOCK_DGRAM"])))
@@ -580,7 +593,7 @@ def build(rng, ty):
             n.append(("encryption_algorithm", rng.choice(["AES-256-GCM", "ChaCha20-Poly1305", "mime-type-indicated"])))
             n.append(("decryption_key", gen_text(rng)))
     elif ty == "autonomous-system":
-        c.append(("number", I(rng.choice([0, 1, 15139, 65535, 4294967295, rng.randrange(0, 2 ** 32)]))))
+        c.append(("number", I(rng.choice([0, 1, 15139, 65535, 4294967295, rng.randrange(0, 2 ** 32), gen_big_int(rng)]))))
         if maybe(rng):
             n.append(("name", gen_text(rng)))
         if maybe(rng):
@@ -830,7 +843,8 @@ def gen_custom_value(rng, kind):
     if kind == "str":
         return gen_text(rng)
     if kind == "int":
-        return I(rng.choice([0, -1, 7, 2 ** 31, 2 ** 53, -(2 ** 53), rng.randrange(-10 ** 9, 10 ** 9)]))
+        return I(rng.choice([0, -1, 7, 2 ** 31, 2 ** 53, -(2 ** 53), rng.randrange(-10 ** 9, 10 ** 9), gen_big_int(rng, True),
+                             gen_big_int(rng, True)]))
     if kind == "float":
         return F(rng.choice([0.0, -0.0, 5e-324, 1.7976931348623157e308, gen_float(rng), gen_float(rng), gen_float(rng)]))
     if kind == "bool":
